@@ -25,6 +25,10 @@ structure WF (s : Store) : Prop where
 `add_data_point_to_node` that follows it) -/
 def Full (s : Store) : Prop := ∀ n ∈ s.forest.recs, n.name ∈ s.data.map (·.1)
 
+/-- the payload's data-point list is the `_data` list of its name, in the same order (both are appended
+to and erased from together; `from_dict` rebuilds the payload from the `_data` list) -/
+def Aligned (s : Store) : Prop := ∀ n ∈ s.forest.recs, n.dps = s.dataOf n.name
+
 /-- clone names are below the number of clones: true of every tree built by SMC placements only and
 after `relabel_nodes`; it is what makes the name `num_nodes` chosen by `create_root_node` fresh -/
 def Dense (s : Store) : Prop := ∀ n ∈ s.forest.recs, n.name < (s.numNodes : Int)
@@ -46,11 +50,12 @@ def CacheOK (dt : Data) (s : Store) : Prop :=
   CacheOKsf dt s.forest ∧ (s.forest.isNil = false → s.rootR = recompRoot dt s.forest)
 
 /-- the edits the samplers compose: a clone is created (named `num_nodes`) only in a tree whose names
-are dense (SMC placements start from the empty tree or from a particle built by placements) and is
-never left empty; `remove_subtree` is given a subtree extracted from the same tree; a subtree is
+are dense (SMC placements start from the empty tree or from a particle built by placements), with data
+points the tree does not hold yet (`create_root_node` itself does not check this), and is never left
+empty; `remove_subtree` is given a subtree extracted from the same tree; a subtree is
 grafted only into a tree that does not hold its data points -/
 def Legal (sys : Sys) : Op → Prop
-  | .create h _ d => d ≠ [] ∧ ∀ s, sys[h]? = some s → Dense s
+  | .create h _ d => d ≠ [] ∧ ∀ s, sys[h]? = some s → Dense s ∧ ∀ x ∈ d, x ∉ s.data.flatMap (·.2)
   | .createAdd h _ _ => ∀ s, sys[h]? = some s → Dense s
   -- the subtree handed to `remove_subtree` carries the names of the subtree it was extracted from
   | .rmSub h hs => ∀ s sb, sys[h]? = some s → sys[hs]? = some sb → Store.keyEq sb s = false →
